@@ -61,6 +61,8 @@
 extern crate libc;
 
 mod half_lock;
+#[cfg(sighook_verif)]
+pub mod verif;
 
 use std::collections::hash_map::Entry;
 use std::collections::{BTreeMap, HashMap};
@@ -177,6 +179,8 @@ impl Slot {
         new.sa_flags = flags as _;
         // C data structure, expected to be zeroed out.
         let mut old: libc::sigaction = unsafe { mem::zeroed() };
+        #[cfg(sighook_verif)]
+        verif::point(verif::Op::Sigaction, signal as usize, 1);
         // FFI ‒ pointers are valid, it doesn't take ownership.
         if unsafe { libc::sigaction(signal, &new, &mut old) } != 0 {
             return Err(Error::last_os_error());
@@ -217,6 +221,8 @@ impl Prev {
     fn detect(signal: c_int) -> Result<Self, Error> {
         // C data structure, expected to be zeroed out.
         let mut old: libc::sigaction = unsafe { mem::zeroed() };
+        #[cfg(sighook_verif)]
+        verif::point(verif::Op::Sigaction, signal as usize, 0);
         // FFI ‒ pointers are valid, it doesn't take ownership.
         if unsafe { libc::sigaction(signal, ptr::null(), &mut old) } != 0 {
             return Err(Error::last_os_error());
@@ -384,6 +390,28 @@ extern "C" fn handler(sig: c_int, info: *mut siginfo_t, data: *mut c_void) {
         }
         // else -> probably should not happen, but races with other threads are possible so
         // better safe
+    }
+}
+
+/// Entry points for a verification harness (only with `--cfg sighook_verif`).
+#[cfg(all(sighook_verif, not(windows)))]
+pub mod verif_api {
+    use super::*;
+
+    /// Runs the library's signal handler as if `sig` had been delivered to the calling thread.
+    pub unsafe fn dispatch(sig: c_int, info: *mut siginfo_t, data: *mut c_void) {
+        handler(sig, info, data)
+    }
+
+    /// The address the library installs as the process's disposition.
+    pub fn handler_addr() -> usize {
+        handler as usize
+    }
+
+    /// `verif_addrs()` of the registry's two half-locks: `[data, race_fallback]`.
+    pub fn layout() -> [[usize; 6]; 2] {
+        let g = GlobalData::ensure();
+        [g.data.verif_addrs(), g.race_fallback.verif_addrs()]
     }
 }
 
